@@ -107,3 +107,33 @@ def unguarded_path(e, g, site, alternatives, start=None):
         return False
     return dataflow.typestate_witness(
         g, False, step, lambda n, st: n is site and not st, start=start)
+
+
+def per_iteration_counts(g, lp, count, cap=3):
+    """Set of possible numbers of counted events in ONE iteration of the loop
+    headed by iter node `lp` (paths from the 'body' edge back to the head;
+    iterations left by break/return/raise are not included)."""
+    from .. import dataflow
+    starts = [s for l, s in lp.succ if l == 'body']
+    if not starts:
+        return frozenset()
+    out = set()
+    for st0 in starts:
+        def transfer(n, st):
+            if n is lp:
+                return None           # do not run into the next iteration
+            c = count(n)
+            if not c:
+                return st
+            new = frozenset(min(cap, x + c) for x in st)
+            return {None: new, 'exc': st}
+        IN = dataflow.forward(g, frozenset([0]), transfer,
+                              lambda a, b: a | b, start=st0)
+        for l, p in lp.pred:
+            if p.id in IN and p is not lp and l != 'body':
+                st = IN[p.id]
+                c = count(p)
+                if isinstance(l, tuple):
+                    continue
+                out |= set(min(cap, x + c) for x in st) if c else set(st)
+    return frozenset(out)
